@@ -199,12 +199,13 @@ fn fragments(c: Class) -> Vec<Frag> {
     }
 }
 
-pub const EMBEDDINGS: [&str; 8] = [
+pub const EMBEDDINGS: [&str; 9] = [
     "main",
     "after",
     "import",
     "import-as",
     "crlf",
+    "eof",
     "before",
     "import-own",
     "diamond",
@@ -265,6 +266,8 @@ fn embed(class: Class, fi: usize, frag: Frag, e: usize) -> Program {
             vec![m("main.oal", format!("{decls}\n{plain}\n").replace('\n', "\r\n"))],
             "main.oal",
         ),
+        // the declarations (which hold the error) last, and nothing after the last token
+        "eof" => (vec![m("main.oal", format!("{plain}\n{decls}").trim_end().to_owned())], "main.oal"),
         "import" => (
             vec![
                 m("main.oal", format!("use \"m.oal\";\n{plain}\n")),
@@ -1238,8 +1241,8 @@ impl Engine for C13 {
     }
     fn phases(&self, tier: Tier) -> Vec<Phase> {
         let (nfrag, nembed, reduced) = match tier {
-            Tier::Quick => (4, 5, true),
-            Tier::Thorough => (99, 8, false),
+            Tier::Quick => (4, 6, true),
+            Tier::Thorough => (99, 9, false),
         };
         let par = |kind: &str| json!({"kind": kind, "fragments": nfrag, "embeddings": nembed, "reduced": reduced});
         vec![
@@ -1336,7 +1339,7 @@ impl Engine for C13 {
         }
     }
     fn rule(&self) -> String {
-        "programs: for success and each failure class {lexical, syntax, unbound, duplicate, kind-mismatch, infinite-type, bad-recursion, status-literal, annotation-yaml} hand-written fragments (declarations holding the error + the statements of main that use them; quick: the first 4 per class, thorough: all 4-9) in every embedding (quick: main, after valid code with multi-byte text, imported module, qualified import, CRLF; thorough also: before valid code, module with its own import, bottom of a diamond), plus 9 missing-import and 8 import-cycle programs on 1-3 modules; lexical and syntax fragments include ones whose residual tree is complete. Phase 1 places every program in its class with the libraries (module::load + compile + eval over an in-memory loader). Phase 2 runs the real oal-cli on program x {options only (cwd = sources), --conf only (cwd elsewhere), conf naming a wrong main and target overridden by options, non-existent main} x base {none, valid, not YAML, YAML but not an OpenAPI object, missing file} x target {absent, sentinel bytes}: exit status must be 0 exactly for an accepted program with a valid configuration and 1 otherwise (never a signal or another code); on 0 the target parses as openapiv3::OpenAPI and equals, as YAML values, the document of the in-process libraries on the same module URLs (Builder::with_base for the valid base); on 1 the target is byte-identical to what it was (or still absent), stderr is not empty and, for an error in the sources, carries `<url of the module the error is in>:<line>:<column>` with the line and column of the span the libraries attach to the error (for an import cycle: the url of any module of the program); for single-module sources without base oal_wasm::compile succeeds iff the CLI does and gives the same document up to hash-* names (they digest the module URL). Phase 4 starts one oal-lsp on two workspace folders holding every ordered pair of one single-module program per class: each folder gets >= 1 diagnostic iff its program is rejected. Phase 3 starts the real oal-lsp on the sources as a workspace folder with oal.toml, initialises, sends one request and counts the diagnostics published before its answer: >= 1 iff the CLI (options only, no base) fails. distinct = distinct (class, configuration, exit, first stderr line, document) observations. states = (program, configuration) pairs, transitions = process runs".into()
+        "programs: for success and each failure class {lexical, syntax, unbound, duplicate, kind-mismatch, infinite-type, bad-recursion, status-literal, annotation-yaml} hand-written fragments (declarations holding the error + the statements of main that use them; quick: the first 4 per class, thorough: all 4-9) in every embedding (quick: main, after valid code with multi-byte text, imported module, qualified import, CRLF, the error at the very end of a text without final newline; thorough also: before valid code, module with its own import, bottom of a diamond), plus 9 missing-import and 8 import-cycle programs on 1-3 modules; lexical and syntax fragments include ones whose residual tree is complete. Phase 1 places every program in its class with the libraries (module::load + compile + eval over an in-memory loader). Phase 2 runs the real oal-cli on program x {options only (cwd = sources), --conf only (cwd elsewhere), conf naming a wrong main and target overridden by options, non-existent main} x base {none, valid, not YAML, YAML but not an OpenAPI object, missing file} x target {absent, sentinel bytes}: exit status must be 0 exactly for an accepted program with a valid configuration and 1 otherwise (never a signal or another code); on 0 the target parses as openapiv3::OpenAPI and equals, as YAML values, the document of the in-process libraries on the same module URLs (Builder::with_base for the valid base); on 1 the target is byte-identical to what it was (or still absent), stderr is not empty and, for an error in the sources, carries `<url of the module the error is in>:<line>:<column>` with the line and column of the span the libraries attach to the error (for an import cycle: the url of any module of the program); for single-module sources without base oal_wasm::compile succeeds iff the CLI does and gives the same document up to hash-* names (they digest the module URL). Phase 4 starts one oal-lsp on two workspace folders holding every ordered pair of one single-module program per class: each folder gets >= 1 diagnostic iff its program is rejected. Phase 3 starts the real oal-lsp on the sources as a workspace folder with oal.toml, initialises, sends one request and counts the diagnostics published before its answer: >= 1 iff the CLI (options only, no base) fails. distinct = distinct (class, configuration, exit, first stderr line, document) observations. states = (program, configuration) pairs, transitions = process runs".into()
     }
     fn assumptions(&self) -> Vec<String> {
         vec![
